@@ -363,6 +363,24 @@ func find(ms *yang.Modules, t string) *yang.Entry {
 	return e
 }
 
+// goneAbove: t or one of its ancestors was removed by a not-supported applied so far.
+func goneAbove(want map[string]*node, t string) bool {
+	parts := strings.Split(t, "/")
+	for i := 1; i <= len(parts); i++ {
+		if i == len(parts) && implicit(t) {
+			break
+		}
+		if n := want[strings.Join(parts[:i], "/")]; n != nil && n.gone {
+			return true
+		}
+	}
+	return false
+}
+
+// implicit: the input and output nodes of an rpc exist whether or not they are written (RFC 7950
+// 7.14), so removing one empties it and a later deviation still finds it.
+func implicit(t string) bool { return strings.HasSuffix(t, "/input") || strings.HasSuffix(t, "/output") }
+
 // check accepts either order of application when several modules deviate (the statement fixes the
 // order inside one deviation only; which module goes first is not claimed - that the choice is the
 // same for every load order is C05's business).
@@ -413,9 +431,15 @@ func checkOrder(in Input, reverse bool) (f *fail, wantErr bool) {
 				want[d.Target] = n
 				dc[d.Target] = map[string]bool{}
 			}
-			if n.gone && !in.Ignore {
-				// an earlier not-supported removed the target: a further deviation cannot find it
+			if goneAbove(want, d.Target) && !in.Ignore {
+				// an earlier not-supported removed the target or a node above it: a further
+				// deviation cannot find it
 				wantErr = true
+				continue
+			}
+			if n.gone && !in.Ignore {
+				// an emptied implicit node: the statement does not say what deviating it means
+				dc[d.Target]["err"], anyDC = true, true
 				continue
 			}
 			for _, x := range d.Seq {
@@ -463,8 +487,15 @@ func checkOrder(in Input, reverse bool) (f *fail, wantErr bool) {
 		for t, n := range want {
 			p := "/" + t
 			e := find(ms, t)
-			if n.gone {
+			if !n.gone && goneAbove(want, t) {
+				// deviated first, then removed together with a node above it
 				if e != nil {
+					diffs = append(diffs, p+": still there although a node above it is not supported")
+				}
+				continue
+			}
+			if n.gone {
+				if e != nil && !(implicit(t) && len(e.Dir) == 0) {
 					diffs = append(diffs, p+": not removed by not-supported")
 				}
 				frameSkip[p] = true
@@ -549,13 +580,20 @@ func shards(tier string) []string {
 			}
 		}
 	}
+	for k := 0; k < 8; k++ {
+		out = append(out, fmt.Sprintf("related/%d", k))
+	}
 	return append(out, "two-modules/0", "two-modules/1", "two-modules/2", "two-modules/3")
 }
+
+// several deviation statements on a node, its children and its ancestors, in one module and in two
+var relTargets = []string{"c", "c/x", "c/cc", "c/cc/y", "u1", "u1/gl", "u1/gll", "r/input", "r/input/i", "n"}
+var relDeviates = []deviate{{Kind: "not-supported"}, {"replace", []prop{{"config", "false"}}}, {"add", []prop{{"units", "v"}}}, {"replace", []prop{{"type", "int8"}}}, {"delete", []prop{{"default", "4"}}}}
 
 var tripleTargets = []string{"l", "ll", "u1/gll", "ch", "c/cc/y"}
 
 func run(c *core.Ctx) {
-	c.Res.Bound = fmt.Sprintf("%d targets (leaf with default and units, plain leaf, mandatory leaf, bounded leaf-list, list, config-false container, nested leaves, choice with default, anydata, leaf / leaf-list / list inside one of two uses of a grouping, rpc input leaf, two missing targets) x every single deviate (not-supported, unknown kind, add/replace/delete x 18 single properties and 5 property pairs) and every ordered pair of deviates (thorough: every ordered triple of single-property deviates on 5 targets), plus the ignore-not-supported option; two deviating modules on the same and on different targets", len(targets))
+	c.Res.Bound = fmt.Sprintf("%d targets (leaf with default and units, plain leaf, mandatory leaf, bounded leaf-list, list, config-false container, nested leaves, choice with default, anydata, leaf / leaf-list / list inside one of two uses of a grouping, rpc input leaf, two missing targets) x every single deviate (not-supported, unknown kind, add/replace/delete x 18 single properties and 5 property pairs) and every ordered pair of deviates (thorough: every ordered triple of single-property deviates on 5 targets), plus the ignore-not-supported option; two deviating modules on the same and on different targets; every ordered pair (one module and two) and triple of deviation statements over %d related targets (a node, its children, its ancestors) x %d deviates", len(targets), len(relTargets), len(relDeviates))
 	ds := deviates()
 	n := 0
 	one := func(in Input) {
@@ -612,6 +650,45 @@ func run(c *core.Ctx) {
 			for _, d2 := range core3 {
 				for _, d3 := range core3 {
 					one(Input{Devs: []Deviation{{"d1", t, []deviate{d1, d2, d3}}}})
+				}
+			}
+		}
+		return
+	}
+	if parts[0] == "related" {
+		type td struct {
+			t string
+			d deviate
+		}
+		var all, small []td
+		for ti, t := range relTargets {
+			for di, d := range relDeviates {
+				all = append(all, td{t, d})
+				if c.Tier == "thorough" || (di < 3 && (ti < 2 || ti == 3 || ti == 4 || ti == 5)) {
+					small = append(small, td{t, d})
+				}
+			}
+		}
+		k := 0
+		for _, x := range all {
+			for _, y := range all {
+				if k++; k%8 != a {
+					continue
+				}
+				one(Input{Devs: []Deviation{{"d1", x.t, []deviate{x.d}}, {"d1", y.t, []deviate{y.d}}}})
+				one(Input{Devs: []Deviation{{"d1", x.t, []deviate{x.d}}, {"d2", y.t, []deviate{y.d}}}})
+				if x.d.Kind == "not-supported" || y.d.Kind == "not-supported" {
+					one(Input{Devs: []Deviation{{"d1", x.t, []deviate{x.d}}, {"d1", y.t, []deviate{y.d}}}, Ignore: true})
+				}
+			}
+		}
+		for _, x := range small {
+			for _, y := range small {
+				for _, z := range small {
+					if k++; k%8 != a {
+						continue
+					}
+					one(Input{Devs: []Deviation{{"d1", x.t, []deviate{x.d}}, {"d1", y.t, []deviate{y.d}}, {"d1", z.t, []deviate{z.d}}}})
 				}
 			}
 		}
